@@ -383,6 +383,13 @@ def np_sum(ex, st, a, axis=None, **kw):
             x = arr.get(i)
             acc = s_add(acc, to_int(x) if kind(x) == 'bool' else x)
         return acc
+    if arr.ndim == 2 and axis in (1, -1):
+        # row sums of a matrix of symbolic shape: an uninterpreted function of the row index (numpy's floating-point summation of
+        # that row, whatever its order); visible to the contract as ROWSUM(i)
+        RS = z3.Function(fresh_name('ROWSUM'), z3.IntSort(), z3.RealSort())
+        ex.spec_funcs['ROWSUM'] = _spec(lambda i: RS(to_int(i)))
+        ex.assumed.append('model: np.sum(M, axis=1)[i] is a function ROWSUM(i) of row i (no property of the summation is used)')
+        return ArrayVal((arr.shape[0],), lambda i: RS(to_int(i)), 'real')
     raise Unsupported('sum over symbolic length (use a contract-level ghost)')
 
 
